@@ -1259,9 +1259,74 @@ def r07_1(ctx, verdicts, rid="R07.1", only=None, floor=150):
     ctx.run_rule(rid, "panic-site audit with guard discharge", body, floor=floor)
 
 
+# ---------------------------------------------------------------------------------------
+# R07.6 loops whose exit test reads local variables make progress on every iteration
+# ---------------------------------------------------------------------------------------
+PURE_TESTS = {"is_null", "is_empty", "len", "is_some", "is_none", "as_ref", "deref", "as_str", "clone", "lt", "le", "gt", "ge", "eq", "ne", "cmp", "partial_cmp",
+              "is_ascii_alphabetic", "is_ascii_uppercase", "is_ascii_whitespace", "contains", "starts_with", "ends_with"}
+
+
+def r07_6(ctx, rid="R07.6", only=None, floor=3):
+    """A `while` / `loop` whose exit test is a pure expression over local variables (`while !cur.is_null()`,
+    `while left > 0`, `while let Some(link) = buffer`) can only terminate if every way round the loop
+    assigns one of those variables (or hands it to a call that may).  Loops driven by a call
+    (`while let Some(x) = it.next()`, the tokenizer's `read_byte`) are not this rule's business."""
+    F = ctx.facts
+    from riolib.sym import TooManyPaths
+
+    def body(r):
+        n = 0
+        for f in F.fn_list:
+            if f.derived or (only is not None and not only(f)) or not f.file.startswith("src/"):
+                continue
+            heads = sorted({h for a, h in f.back_edges()})
+            if not heads:
+                continue
+            skip = set()
+            for lp in for_loops(f):
+                skip |= {lp.next_block, lp.head()}
+            for h in heads:
+                if h in skip:
+                    continue
+                region = f.loop_blocks(h)
+                try:
+                    ps = Sym(f, copies=True, max_paths=20000).paths(start=h, stops={h}, region=region)
+                except TooManyPaths:
+                    continue
+                back = [p for p in ps if p.end == ("stop", h)]
+                firsts = {p.conds[0][0] for p in ps if p.conds}
+                if not back or len(firsts) != 1:
+                    continue
+                c = next(iter(firsts))
+                if any(x[0] == "call" and x[1].rsplit("::", 1)[1] not in PURE_TESTS for x in walk(c)):
+                    continue
+                locs = {x for x in walk(c) if x[0] == "local"}
+                if not locs:
+                    continue
+                n += 1
+                r.analysed(f)
+                stuck = 0
+                for p in back:
+                    touched = False
+                    for e in p.events:
+                        if e[0] in ("set", "init") and ("local", e[1]) in locs:
+                            touched = True
+                        elif e[0] == "write" and any(x in locs for x in walk(e[1])):
+                            touched = True
+                        elif e[0] == "call" and any(a in locs for a in e[2]) and e[1].rsplit("::", 1)[1] not in PURE_TESTS:
+                            touched = True
+                    if not touched:
+                        stuck += 1
+                r.ob("progress:%s:loop-on-%s" % (f.key, "+".join(sorted(str(f.local_name(l[1]) or l[1]) for l in locs))), stuck == 0, f.site,
+                     "exit test %s: %d of %d ways round the loop leave its variables untouched" % (show(c, f)[:80], stuck, len(back)))
+        r.ob("progress:loops-found", n >= floor, "", "%d loops with a pure exit test over local variables" % n)
+    ctx.run_rule(rid, "loops with a pure exit test over locals make progress on every iteration", body, floor=floor)
+
+
 def run(ctx):
     verdicts = r07_5(ctx)
     r07_1(ctx, verdicts)
     r07_2(ctx)
     from .c18 import r18_2
     r18_2(ctx, rid="R07.3")
+    r07_6(ctx)
